@@ -27,7 +27,7 @@ vf::Config vf::config()
 #else
     c.property = "C01";
 #endif
-    c.maxLen = 400;
+    c.maxLen = 900;
     c.batch = 1;  // fork per case: RNG::setSeed really precedes every generator, a hang or crash names exactly one case
     c.caseTimeout = 30;
     c.hardTimeout = 150;
